@@ -17,6 +17,18 @@ Theorem C06_count_is_number_of_valuations :
   forall d c vals, NoDup (sat_rows d c) /\ agg_value ACount vals = Some (VI64 (Z.of_nat (length vals))).
 Proof. intros d c vals. split; [apply sat_rows_nodup|apply count_value]. Qed.
 
+(* count is exact: for a head `h(groups..., count<x>)` every reported row is its group key followed by the
+   number of DISTINCT satisfying valuations (rows of sat_rows) whose group key is that key *)
+Theorem C06_count_exact :
+  forall d c gs x, cargs c = gs ++ [HAgg ACount x] ->
+    forallb (fun h => negb (is_agg h)) gs = true ->
+    forall t, In t (eval_clause_agg d c) ->
+    exists k, length k = length gs /\
+      t = k ++ [VI64 (Z.of_nat (length (filter (fun row =>
+                   match group_key (nodupN (body_vars (freshen_body 0 (cbody c)))) (cargs c) row with
+                   | Some k' => tuple_eqb k' k | None => false end) (sat_rows d c))))].
+Proof. exact count_exact. Qed.
+
 Example C06_nonvacuous :
   let c := {| chead := 99; cargs := [HVar 0; HAgg ACount 1]; cbody := [LPos 0 [TVar 0; TVar 1]; LPos 1 [TVar 0; TWild]] |} in
   let d := [ (0, [[VI64 1; VI64 5]; [VI64 1; VI64 7]; [VI64 2; VI64 5]]); (1, [[VI64 1; VI64 1]; [VI64 1; VI64 2]; [VI64 2; VI64 9]]) ] in
@@ -25,3 +37,4 @@ Proof. vm_compute. reflexivity. Qed.
 
 Print Assumptions C06_group_once.
 Print Assumptions C06_count_is_number_of_valuations.
+Print Assumptions C06_count_exact.
